@@ -14,7 +14,7 @@ From Coq Require Import List ZArith NArith Bool Permutation Sorted.
 From Lib Require Import PyLite QueryPy.
 From Gen Require Import Query.
 From Model Require Import Query.
-From Proofs Require Import QueryChar QueryOrder QuerySort QueryWhere QueryAgg QueryLookup Query.
+From Proofs Require Import QueryChar QueryOrder QuerySort QueryWhere QueryAgg QueryLookup Query QueryConn.
 Import ListNotations.
 Open Scope Z_scope.
 
@@ -308,6 +308,83 @@ Theorem C11_index_at_most_one :
     (length (filter (kw_sat [(KwS, vs); (k, vf)]) rows) <= 1)%nat.
 Proof. exact (@index_at_most_one). Qed.
 
+(* ================================================================ connections *)
+(* A select bound to a connection -- select(connection=c) / selectBy(connection=c)
+   (`b_make s (Some c)`), or .connection(c) anywhere in the chain (`BConnection`) --
+   is `b : bsr`; `st : store` gives the contents of the table as each connection
+   sees it (another database; for a Transaction the committed rows with its own
+   uncommitted writes); `cls` is the class's own connection.
+
+   .orderBy/.reversed/.distinct/.filter clones keep the binding ... *)
+Theorem C11_conn_clone_keeps_connection :
+  forall ms b cls,
+    b_target cls (b_calls b (map BCall ms)) = b_target cls b /\
+    b_sr (b_calls b (map BCall ms)) = sr_calls (b_sr b) ms.
+Proof. exact (@clone_keeps_connection). Qed.
+
+(* ... the last .connection(c) call decides (None: back to the class's connection) ... *)
+Theorem C11_conn_last_binding_wins :
+  forall pre post b c cls,
+    b_target cls (b_calls b (pre ++ BConnection c :: map BCall post)) = conn_or cls c.
+Proof. exact (@connection_call_rebinds). Qed.
+
+(* ... and every operation of the bound select -- the row list, count(), sum/min/max/avg,
+   getOne -- depends on nothing but what the BOUND connection sees: rows that only
+   other connections see (another database, what is committed outside an open
+   transaction) never enter a result *)
+Theorem C11_conn_view_only :
+  forall st st' cls dflt b,
+    st (b_target cls b) = st' (b_target cls b) ->
+    (forall out, b_accepts st cls dflt b out <-> b_accepts st' cls dflt b out) /\
+    (forall win, b_count st cls b win = b_count st' cls b win) /\
+    (forall win m attr, b_agg st cls b win m attr = b_agg st' cls b win m attr) /\
+    (forall nd, b_getone st cls dflt b nd = b_getone st' cls dflt b nd).
+Proof. exact (@view_only). Qed.
+
+Theorem C11_conn_lookup_view_only :
+  forall st st' cls c,
+    st (conn_or cls c) = st' (conn_or cls c) ->
+    (forall v o, b_altid_accepts st cls c v o <-> b_altid_accepts st' cls c v o) /\
+    (forall dflt kws, b_index st cls c dflt kws = b_index st' cls c dflt kws).
+Proof. exact (@lookup_view_only). Qed.
+
+(* the operations of ONE bound select describe the same rows: for any list the
+   select may return through its connection, count() is its length, every
+   aggregate ranges over its rows, getOne is decided by it *)
+Theorem C11_conn_coherent :
+  forall st cls dflt b out,
+    ids_unique (b_rows st cls b) ->
+    b_accepts st cls dflt b out ->
+    b_count st cls b (VNone, VNone) = OInt (zlength out) /\
+    (forall m attr c, resolve_attr attr = Some c ->
+       b_agg st cls b (VNone, VNone) m attr = OAgg (agg_exec (meth_f m) (sr_dist (b_sr b)) (map (getc c) out))) /\
+    (forall nd, b_getone st cls dflt b nd =
+       match out with
+       | [] => if nd then ONotFound else ODefault
+       | [r] => OFound (rid r)
+       | _ => OIntegrity
+       end).
+Proof. exact (@bound_coherent). Qed.
+
+(* what a Transaction sees (`txn_view committed ws`: the committed rows with the
+   writes made inside it applied in order) is again a table with a primary key,
+   so every select theorem above applies to it ... *)
+Theorem C11_txn_view_ids_unique :
+  forall ws committed, ids_unique committed -> ids_unique (txn_view committed ws).
+Proof. exact (@txn_view_ids_unique). Qed.
+
+(* ... in which every id is as the transaction last wrote it (inserted / updated:
+   that row; deleted: absent) and every id it did not write is as committed *)
+Theorem C11_txn_view_lookup :
+  forall ws committed i,
+    find_row (txn_view committed ws) i =
+    match last_write i ws with
+    | Some (WPut r) => Some r
+    | Some (WDel _) => None
+    | None => find_row committed i
+    end.
+Proof. exact (@txn_view_lookup). Qed.
+
 (* ================================================================ the correspondence's checkers are sound *)
 Theorem C11_checker_sound :
   forall q rows out, select_check q rows out = true -> select_accepts q rows out.
@@ -407,6 +484,32 @@ Example C11_ex_getone_and_lookups :
   /\ run_index BNoDefault [(KwS, KNone); (KwFk, KNone)] ex_rows = OIntegrity.
 Proof. vm_compute. repeat split; try reflexivity; auto. Qed.
 
+(* a select bound to a Transaction that has inserted row 6, updated row 2 and deleted row 1: the list, count(), sum and
+   min all describe the transaction's view; the same select through the plain connection describes the committed rows;
+   through the class's own connection (another database) the decoy rows *)
+Example C11_ex_transaction_view :
+  let ws := [WPut (mkrow 6 (Some 1) (Some 5) None None None); WPut (mkrow 2 (Some 1) (Some 7) (Some 3) (Some 1) (Some 2)); WDel 1] in
+  let st := txn_store [mkrow 1 (Some 1) (Some 100) None None None] ex_rows ws in
+  let mk c := match b_make (SSelect (WEq CA (Some 1)) (BVal (OStr n_b)) false false) c with
+              | Some b => b_calls b [BCall MReversed] | None => mkbsr (mksr STrue BNoDefault false false) None end in
+  map rid (txn_view ex_rows ws) = [2; 3; 4; 5; 6]
+  /\ b_accepts st 0%N BNoDefault (mk (Some 2%N)) [mkrow 2 (Some 1) (Some 7) (Some 3) (Some 1) (Some 2); mkrow 6 (Some 1) (Some 5) None None None; ex_row 5]
+  /\ b_count st 0%N (mk (Some 2%N)) (VNone, VNone) = OInt 3
+  /\ b_agg st 0%N (mk (Some 2%N)) (VNone, VNone) MSum (RRaw n_b) = OAgg (AInt 14)
+  /\ b_agg st 0%N (mk (Some 2%N)) (VNone, VNone) MMin (RRaw n_b) = OAgg (AInt 2)
+  /\ b_count st 0%N (mk (Some 1%N)) (VNone, VNone) = OInt 3
+  /\ b_agg st 0%N (mk (Some 1%N)) (VNone, VNone) MSum (RRaw n_b) = OAgg (AInt 4)
+  /\ b_agg st 0%N (mk None) (VNone, VNone) MSum (RRaw n_b) = OAgg (AInt 100)
+  /\ b_agg st 0%N (b_calls (mk None) [BConnection (Some 2%N); BCall MDistinct]) (VNone, VNone) MSum (RRaw n_b) = OAgg (AInt 14)
+  /\ b_index st 0%N (Some 2%N) BNoDefault [(KwS, KInt 2); (KwFk, KObj 1)] = ONotFound
+  /\ b_index st 0%N (Some 1%N) BNoDefault [(KwS, KInt 2); (KwFk, KObj 1)] = OFound 1
+  /\ b_altid_accepts st 0%N (Some 2%N) (KInt 1) ONotFound /\ b_altid_accepts st 0%N (Some 1%N) (KInt 1) (OFound 1).
+Proof.
+  cbv zeta. split; [vm_compute; reflexivity|]. split.
+  - apply select_check_sound. vm_compute. reflexivity.
+  - vm_compute. repeat split; try reflexivity; auto.
+Qed.
+
 Print Assumptions C11_order_emitted.
 Print Assumptions C11_order_directions.
 Print Assumptions C11_order_chain.
@@ -449,3 +552,10 @@ Print Assumptions C11_index_get.
 Print Assumptions C11_index_at_most_one.
 Print Assumptions C11_checker_sound.
 Print Assumptions C11_altid_checker_sound.
+Print Assumptions C11_conn_clone_keeps_connection.
+Print Assumptions C11_conn_last_binding_wins.
+Print Assumptions C11_conn_view_only.
+Print Assumptions C11_conn_lookup_view_only.
+Print Assumptions C11_conn_coherent.
+Print Assumptions C11_txn_view_ids_unique.
+Print Assumptions C11_txn_view_lookup.
